@@ -712,6 +712,10 @@ func (c *Candidates) IsDelegatorStakeAllowed(address types.Address, pubkey types
 
 	newTotalStakes := big.NewInt(0).Add(c.totalStakes, diff)
 
+	if newTotalStake.Sign() != 1 {
+		return false, false
+	}
+
 	if big.NewInt(0).Div(newTotalStakes, newTotalStake).Cmp(big.NewInt(5)) == -1 {
 		return false, true
 	}
